@@ -226,8 +226,28 @@ def from_py(v):
     return {"t": "other", "v": repr(v)[:80]}
 
 
+import re as _re
+
+# The float texts of the model's domain (coq/theories/Values/JsonWf.v float_repr_ok): float.__repr__ of a finite
+# float on this interpreter (sys.float_repr_style == 'short'), or json.dumps's NaN / Infinity / -Infinity.
+_FLOAT_TEXT = _re.compile(r"-?[0-9]+(\.[0-9]+)?(e[+-][0-9]+)?\Z")
+
+
+def float_text_ok(t):
+    if t in ("NaN", "Infinity", "-Infinity"):
+        return True
+    return bool(_FLOAT_TEXT.match(t)) and ("." in t or "e" in t)
+
+
 def float_repr(j):
-    return j["r"] if "r" in j else repr(j["n"] / j["d"])
+    """repr() text of a float value; a text outside Values.JsonWf.float_repr_ok is an error (the dumps
+    injectivity / loads round-trip theorems are stated on that grammar), never silently accepted."""
+    t = j["r"] if "r" in j else repr(j["n"] / j["d"])
+    if not float_text_ok(t):
+        raise ValueError("float text %r is outside the model's float grammar (Values.JsonWf.float_repr_ok)" % (t,))
+    if "r" in j and repr(float(t)) != t:
+        raise ValueError("float text %r is not the repr() of a float on this interpreter (it prints %r)" % (t, repr(float(t))))
+    return t
 
 
 def to_pyval(j):
